@@ -39,6 +39,11 @@ def make_scenario(seed, tier):
              ["put", "-q", "@c[$a] = $id; end { emit @c, \"a\" }"], ["nothing"], ["cat", "-n"],
              ["put", "begin { @n = 100 } $n = @n + NR"]]
     verb = rng.choice(verbs)
+    seedflags = []
+    if rng.random() < 0.25:
+        # randomised verbs/functions under --seed: each file must equal what the same command prints for it alone
+        verb = rng.choice([["shuffle"], ["bootstrap"], ["sample", "-k", "3"], ["put", "$u = urandint(1, 1000000)"], ["filter", "urand() < 0.7"]])
+        seedflags = ["--seed", str(rng.choice([1, 7, 12345]))]
     files = []
     for i, n in enumerate(sizes):
         recs = gen.records(random.Random(f"{seed}/f{i}"), n, ragged=0, id_prefix=f"f{i}r")
@@ -59,7 +64,7 @@ def make_scenario(seed, tier):
             data = zlib.compress(data)
         mode = rng.choice([0o644, 0o600, 0o755, 0o444, 0o640])
         files.append({"name": name, "plain": text.encode(), "data": data, "comp": comp, "mode": mode, "n": n})
-    flags = {"dkvp": ["--dkvp"], "csv": ["--csv"], "json": ["--json"]}[fmt]
+    flags = {"dkvp": ["--dkvp"], "csv": ["--csv"], "json": ["--json"]}[fmt] + seedflags
     return {"seed": seed, "fmt": fmt, "flags": flags, "verb": verb, "files": files}
 
 
@@ -125,7 +130,7 @@ def inspect(res, sc, cwd, exp, how, killed, detail, sigbase):
         states.append(st)
         if st == "other":
             add_violation(res, dict(sigbase, kind="half-written"),
-                          f"{how}: {f['name']} is neither its original ({len(f['data'])} B) nor its transformed content: {len(data)} B on disk",
+                          f"{how}: {f['name']} is neither its original ({len(f["data"])} B) nor what the same command prints for that file alone: {len(data)} B on disk",
                           dict(detail, on_disk_head=data[:300], file_index=i))
     # prefix property: new* (orig|new) orig*
     seen_orig = False
@@ -423,13 +428,77 @@ def failure_case(case):
     return res
 
 
+def fsize_case(case):
+    """Output-write faults by file-size limit (EFBIG): the write that fails may be an ordinary one, the final flush, or
+    the compressor's trailer at close. Either the run succeeds completely or it fails with every file original-or-transformed,
+    the prefix property, and no temp file; exit 0 with anything else on disk is the violation."""
+    rng = random.Random(case["seed"])
+    sc = make_scenario(case["seed"] + "/sc", case["tier"])
+    # make sure there is something big enough to hit the limits, compressed or not
+    fmt = sc["fmt"]
+    big = []
+    for i in range(rng.choice([1, 2])):
+        recs = gen.records(random.Random(f"{case['seed']}/big{i}"), rng.choice([300, 700, 1500]), ragged=0, id_prefix=f"b{i}r")
+        text = {"dkvp": gen.dkvp, "csv": gen.csv_simple}.get(fmt, lambda r: gen.json_text(r, as_strings=False))(recs)
+        comp = rng.choice(["gz", "z", "gz", None])
+        data = text.encode()
+        if comp == "gz":
+            data = gzip.compress(data)
+        elif comp == "z":
+            data = zlib.compress(data)
+        big.append({"name": f"big{i}.{fmt}" + (f".{comp}" if comp else ""), "plain": text.encode(), "data": data, "comp": comp,
+                    "mode": 0o644, "n": len(recs)})
+    pos = rng.randrange(len(sc["files"]) + 1)
+    sc["files"] = sc["files"][:pos] + big + sc["files"][pos:]
+    res = case_result(_h("fsize", case["seed"]), nontrivial=False)
+    exp = expected_outputs(sc)
+    if exp is None:
+        res["skipped"] += 1
+        return res
+    names = [f["name"] for f in sc["files"]]
+    argv = ["-I"] + sc["flags"] + sc["verb"] + names
+    nt = []
+    for limit in case["limits"]:
+        cwd = setup_dir(sc)
+        try:
+            r = R.mlr(argv, cwd=cwd, fsize=limit)
+            bump(res, "fsize_runs")
+            detail = {"argv": argv, "rlimit_fsize": limit, "scenario_seed": case["seed"], "rc": r.rc, "stderr": r.err[:300],
+                      "files": {f["name"]: f["data"][:1500] for f in sc["files"]}}
+            if r.verdict == "slow":
+                res["inconc"] += 1
+                continue
+            if r.verdict == "deadlock":
+                add_violation(res, {"phase": "fsize", "kind": "deadlock"}, f"-I under RLIMIT_FSIZE={limit} deadlocks", dict(detail, dump=(r.dump or "")[-3000:]))
+                continue
+            if r.signal is not None:
+                # SIGXFSZ if the runtime does not ignore it: a crash-like stop; files must still be whole
+                inspect(res, sc, cwd, exp, f"killed by signal {r.signal} under RLIMIT_FSIZE={limit}", True, detail, {"phase": "fsize-signal"})
+                continue
+            states = inspect(res, sc, cwd, exp, f"after exit {r.rc} under RLIMIT_FSIZE={limit}", False, detail, {"phase": "fsize", "rc0": r.rc == 0})
+            if r.rc == 0:
+                bump(res, "fsize_runs_succeeded")
+                if any(st == "orig" for st in states):
+                    add_violation(res, {"phase": "fsize", "kind": "exit-0-not-transformed"}, f"exit 0 under RLIMIT_FSIZE={limit} but a file still has its original content (states {states})", detail)
+            else:
+                bump(res, "fsize_runs_failed")
+                nt.append(_h(case["seed"], limit))
+                if not r.err.strip():
+                    add_violation(res, {"phase": "fsize", "kind": "no-diagnostic"}, f"exit {r.rc} under RLIMIT_FSIZE={limit} with empty stderr", detail)
+        finally:
+            shutil.rmtree(cwd, ignore_errors=True)
+    res["nontrivial_keys"] = nt
+    res["sample"] = {"monitor": "fsize-fault", "argv": argv, "limits": case["limits"]}
+    return res
+
+
 def run(chk):
     only = getattr(chk, "only", None)
     q = chk.quick()
     chk.rule = ("scenarios = (1-4 files of 0/1/3/40/700 records, csv/json/dkvp, optional .gz/.z, modes 0644/0600/0755/0444/0640) x verb; "
                 "hook enumerator: SIGKILL at every hit of every inplace.* site, at writer.record#n (all n on small files, boundary + sampled n on large) "
                 "and stream.flush#n; syscall enumerator: SIGKILL at entry of the N-th openat/write/close/rename/chmod/unlink (per thread) for N=1.. "
-                "until the run completes; failure paths: DSL error / malformed input / missing file / schema change / ENOSPC / refusals at file index i. "
+                "until the run completes; write faults: RLIMIT_FSIZE at 9-17 sizes so that an ordinary write, the final flush or the compressor trailer fails; failure paths: DSL error / malformed input / missing file / schema change / ENOSPC / refusals at file index i. "
                 "Non-trivial = kill strictly inside the temp-file window, or failure at file index >= 2; distinct = (scenario, site, n)")
     if not only or "crash" in only:
         n = 12 if q else 150
@@ -440,6 +509,10 @@ def run(chk):
     if not only or "fail" in only:
         n = 160 if q else 3000
         chk.pmap(failure_case, [{"seed": f"{chk.seed}/fail/{i}", "tier": chk.tier} for i in range(n)], label="failure paths")
+    if not only or "fsize" in only:
+        n = 16 if q else 200
+        limits = [256, 1024, 2048, 4096, 8192, 12288, 16384, 32768, 65536] if q else [256, 512, 1024, 1536, 2048, 3072, 4096, 6144, 8192, 10240, 12288, 16384, 24576, 32768, 49152, 65536, 131072]
+        chk.pmap(fsize_case, [{"seed": f"{chk.seed}/fsize/{i}", "tier": chk.tier, "limits": limits} for i in range(n)], label="write faults by file-size limit")
     chk.extra["crash_points_covered_of_total"] = [chk.stats.get("crash_points_covered", 0), chk.stats.get("crash_points_total", 0)]
     chk.assumptions = [
         "process crashes only (SIGKILL): the file system changes only at system calls; power loss / fsync durability is out of the statement",
